@@ -179,7 +179,7 @@ def run(ctx):
     with ctx.timed('table'):
         run_table(ctx)
     if ctx.tier == 'quick':
-        core.run_sharded(ctx, __name__, 'shard', 1, (1500,))
+        core.run_sharded(ctx, __name__, 'shard', 4, (450,))
     else:
         core.run_sharded(ctx, __name__, 'shard', getattr(ctx, 'shards_override', None) or 16, (16000,))
 
